@@ -402,10 +402,12 @@ template<class T> constexpr T spice(T*t) {return *t;}
 
 #define rBOIL_END }
 
+/* (compare with the bound itself: narrowed to the storage type, a bound that */
+/*  type cannot hold would wrap, e.g. (short)40000 == -25536)                  */
 #define rLIMIT(var, convert) \
-    if(prop["min"] && var < (decltype(var)) convert(prop["min"])) \
+    if(prop["min"] && var < convert(prop["min"])) \
         var = (decltype(var)) convert(prop["min"]);\
-    if(prop["max"] && var > (decltype(var)) convert(prop["max"])) \
+    if(prop["max"] && var > convert(prop["max"])) \
         var = (decltype(var)) convert(prop["max"]);
 
 #define rTYPE(n) decltype(obj->n)
